@@ -8,6 +8,7 @@
   `received_message_is_next_in_order` is the contiguity / no-duplicate / no-stale-message statement.
 -/
 import BB.Proofs.PubSub4
+import BB.Proofs.PubSubHist
 
 namespace BB.Props.C06
 open BB.LTS BB.PubSub BB.Caster BB.Fun
@@ -123,6 +124,85 @@ theorem global_order_grows_by_arming (s s' : St) (act : Act) (hs : sys.step s ac
   all_goals
     first
       | (split at hs <;> first | (cases hs; exact Or.inl rfl) | (split at hs <;> first | (cases hs; exact Or.inl rfl) | (split at hs <;> first | (cases hs; exact Or.inl rfl) | cases hs) | cases hs) | cases hs)
+
+/-! ### Whole histories (the observer of `BB/Proofs/PubSubHist.lean`)
+
+The wrapped system `hsys` is `sys` plus a passive observer recording, per subscriber, where in the global order its
+current subscription started and which values it has received since, and per Send call the position at which it was
+armed.  Every run of `sys` is a run of `hsys` and vice versa (`history_observer_is_passive`). -/
+
+/-- the observer neither adds nor removes behaviour -/
+theorem history_observer_is_passive :
+    (∀ h, Reach hsys h → Reach sys h.st) ∧ (∀ s, Reach sys s → ∃ h, Reach hsys h ∧ h.st = s) := by
+  refine ⟨hreach_proj, ?_⟩
+  intro s hr
+  induction hr with
+  | init => exact ⟨hsys.init, Reach.init, rfl⟩
+  | step _ hs ih =>
+    obtain ⟨h, hr', rfl⟩ := ih
+    obtain ⟨h', e1, e2⟩ := hstep_total h _ _ hs
+    exact ⟨h', Reach.step hr' e1, e2⟩
+
+/-- WHOLE-HISTORY ORDER.  In every reachable state, the values a subscription has received so far are exactly the
+    `n` consecutive elements of the one global order `log` that start at the position the order had reached when the
+    subscription was made: a contiguous run — no gap, no duplicate, nothing armed before the subscription (so no
+    message whose Send had already returned), the same order for every subscription. -/
+theorem subscription_sees_contiguous_run (h : HSt) (hr : Reach hsys h) (t : Nat) :
+    h.seen t = (h.st.log.drop (h.start t)).take (h.seen t).length ∧ h.start t + (h.seen t).length ≤ h.st.log.length := by
+  rcases (hinv_reach h hr).run t with ⟨_, h2, h3⟩ | ⟨_, h2, h3⟩
+  · rw [h2]; simpa using h3
+  · exact ⟨h2, h3⟩
+
+/-- element-wise form: the i-th value received by a subscription is the element of the global order at position
+    `start + i`; two subscriptions overlapping in time therefore agree on the order of the messages both receive -/
+theorem ith_reception_is_ith_position (h : HSt) (hr : Reach hsys h) (t i : Nat) (hi : i < (h.seen t).length) :
+    (h.seen t)[i]? = h.st.log[h.start t + i]? := by
+  obtain ⟨h1, h2⟩ := subscription_sees_contiguous_run h hr t
+  rw [h1, List.getElem?_take_of_lt hi, List.getElem?_drop]
+
+/-- two subscriptions see the messages they have in common in the same relative order, because both read the same
+    list: if t received position p as its i-th and u as its j-th message, the values agree -/
+theorem common_messages_agree (h : HSt) (hr : Reach hsys h) (t u i j : Nat) (hi : i < (h.seen t).length)
+    (hj : j < (h.seen u).length) (hp : h.start t + i = h.start u + j) : (h.seen t)[i]? = (h.seen u)[j]? := by
+  rw [ith_reception_is_ith_position h hr t i hi, ith_reception_is_ith_position h hr u j hj, hp]
+
+/-- every armed Send call sits at its own position of the global order, with the value it was called with; no two
+    calls share a position -/
+theorem armed_send_has_its_own_position (h : HSt) (hr : Reach hsys h) (a p : Nat) (ha : h.armedAt a = some p) :
+    h.st.log[p]? = some (h.st.senders a).val ∧ ∀ b, h.armedAt b = some p → b = a :=
+  ⟨((hinv_reach h hr).armed a p ha).1, fun b hb => (hinv_reach h hr).distinct b a p hb ha⟩
+
+/-- the order extends real time (and hence every sender's program order): a Send that arms now is placed after every
+    Send armed earlier — in particular after every Send that had returned before this one began -/
+theorem later_send_is_later_in_order (h h' : HSt) (hr : Reach hsys h) (b : Nat) (hs : hsys.step h (.ccas b) = some h')
+    (hne : h'.st.log ≠ h.st.log) : h'.armedAt b = some h.st.log.length ∧ ∀ a p, a ≠ b → h'.armedAt a = some p → p < h.st.log.length := by
+  have e := hstep_st hs
+  have hobs : h' = hobserve h (.ccas b) { h with st := h'.st } := by
+    simp only [hsys, hstep] at hs
+    rw [e] at hs; simp only [Option.some.injEq] at hs; exact hs.symm
+  have harm : h'.armedAt = upd h.armedAt b (some h.st.log.length) := by rw [hobs]; simp [hobserve, hne]
+  refine ⟨by rw [harm]; simp, ?_⟩
+  intro a p hab hp
+  rw [harm, upd_apply] at hp
+  simp only [hab, ↓reduceIte] at hp
+  have := ((hinv_reach h hr).armed a p hp).1
+  rcases Nat.lt_or_ge p h.st.log.length with hlt | hge
+  · exact hlt
+  · rw [List.getElem?_eq_none hge] at this; cases this
+
+unseal subOne in
+/-- non-vacuity of the history theorems: subscriber 0 subscribes, Send 7 (armed at position 0) is received, subscriber
+    1 subscribes afterwards, Send 8 (position 1) is received by both: 0 has seen [7, 8] from position 0, 1 has seen [8]
+    from position 1 -/
+example :
+    (hsys.run hsys.init [.subLock 0, .subInc 0, .subUnlock 0,
+        .sbegin 0 7, .sendMu 0, .sending 0, .count 0, .pingAdd 0, .cfast 0, .cload 0, .ccas 0, .recv 0 0, .cfinal 0,
+        .unsending 0, .pong 0, .consume 0, .ponged 0, .sdone 0,
+        .subLock 1, .subInc 1, .subUnlock 1,
+        .sbegin 1 8, .sendMu 1, .sending 1, .count 1, .pingAdd 1, .cfast 1, .cload 1, .ccas 1, .recv 1 1, .recv 1 0, .cfinal 1,
+        .unsending 1, .pong 1, .consume 0, .consume 1, .ponged 1, .sdone 1]).map
+      (fun h => (h.seen 0, h.start 0, h.seen 1, h.start 1, h.armedAt 0, h.armedAt 1, h.st.log, (h.st.senders 1).ret)) =
+      some ([7, 8], 0, [8], 1, some 0, some 1, [7, 8], some 2) := by rfl
 
 unseal subOne in
 /-- non-vacuity: two subscribers, one Send; one receives, the other unsubscribes in the middle of the Send and
